@@ -893,6 +893,18 @@ def make_handler(bi, k, h):
                     # the handler's own cleanup after being cancelled (it does not swallow the cancellation);
                     # a second cancellation (e.g. its own deadline passing meanwhile) cuts the cleanup short
                     await asyncio.sleep(h['cleanup'])
+                if h.get('cleanup_event'):
+                    # ... which reports the abort with an event of its own (`finally: await bus.dispatch(Aborted())`)
+                    ev2 = mk_event(h['cleanup_event'][1])
+                    try:
+                        ev2 = RT.buses[h['cleanup_event'][0]].dispatch(ev2)
+                    except Exception:
+                        ev2 = None
+                    if ev2 is not None and h['cleanup_event'][2]:
+                        c2 = eid(ev2)
+                        RT.rec('awaitBegin', i=i, e=c2)
+                        r2 = await ev2
+                        RT.rec('awaitEnd', i=i, e=c2, snap=evsnap(ev2), same=(r2 is ev2))
             finally:
                 RT.rec('hEnd', i=i, out='cancelled')
             raise
